@@ -145,7 +145,7 @@ func setTier() {
 		grpReads = []string{"g0", "g2"}
 	}
 	addScenario(&scenario{name: "grp", reads: grpReads, menu: []string{"g1+g2+g3", "g3", "m", "-"},
-		depth: pick(4, 5), maxBlocks: 4, maxReads: 2})
+		depth: 4, maxBlocks: 4, maxReads: 2})
 	// warm: all accounts are in the stable trie; deep trees, pruning
 	addScenario(&scenario{name: "warm", warm: []string{"g0", "g1", "m", "z"}, menu: []string{"-", "g0", "g1", "m+z"},
 		depth: pick(4, 5), maxBlocks: 6, maxReads: 0})
@@ -1285,7 +1285,20 @@ func main() {
 		}
 	}
 	r.Extra["scenarios"] = sc
-	core.BFS(r, core.BFSConfig{Prop: prop, Run: safeFull, MaxDepth: maxDepth + 1, Subprocess: true, RecycleEvery: 3000, PerRunLimit: 120 * time.Second})
+	core.BFS(r, core.BFSConfig{Prop: prop, Run: safeFull, MaxDepth: maxDepth + 1, Subprocess: true, RecycleEvery: 3000, PerRunLimit: 120 * time.Second,
+		// a worker killed by a panic in one of the database's own goroutines (or by log.Crit) is a finding, a hang is reported as not exhaustive
+		DiedFingerprint: func(hist []string, tail string) *core.Violation {
+			for _, l := range strings.Split(tail, "\n") {
+				if strings.HasPrefix(l, "panic:") || strings.HasPrefix(l, "fatal error:") {
+					if len(l) > 100 {
+						l = l[:100]
+					}
+					return &core.Violation{Fingerprint: prop + "/worker-died/" + l, What: fmt.Sprintf("the process died while executing %v: %s", hist, l),
+						Replay: replayT{History: hist}}
+				}
+			}
+			return nil
+		}})
 	total := map[string]int64{}
 	if ents, err := os.ReadDir(statsDir); err == nil {
 		for _, e := range ents {
